@@ -327,7 +327,53 @@ def c14(tr, sem=None):
         for o in e.get('obs', []):
             if o[0] == 'emit':
                 v.append(f'event {o[1]} of node {o[3]} emitted after on_pipeline_complete / after the run ended')
+    v += c14_second_manager(tr)
     return v
+
+
+def c14_second_manager(tr):
+    """the view of a second event manager (registered after the first, never suspends, never raises): every manager sees a
+    node's successful on_node_complete before the node's value is delivered to a consumer, on_pipeline_start first and
+    on_pipeline_complete last"""
+    obs2 = [o for o in tr.get('obs2', []) if o[1] == 0]
+    if not obs2 or tr['spec'].get('cbraise') or cancel_requested(tr) or len(tr.get('results') or []) != 1:
+        return []
+    v = []
+    g = tr['graph']
+    ordinary = {n['id'] for n in g['nodes'] if n['in_map']}
+    has_rec = any(n['start_node'] is not None for n in g['nodes'])
+    # positions of the body calls in the observation stream (every observation except the harness's own 'sleep' notes)
+    pos, bodies = 0, []
+    for e in tr['events'] + tr.get('after', []):
+        for o in e.get('obs', []):
+            if o[0] == 'sleep':
+                continue
+            if o[0] == 'body':
+                bodies.append((pos, o[2], o[5]))
+            pos += 1
+    done2 = {}
+    for kind, _, n, x, p2 in obs2:
+        if kind == 'ncomplete' and x is None:
+            done2.setdefault(n, p2)
+    if not has_rec:
+        for p, m, kw in bodies:
+            for e in g['edges']:
+                if e['v'] == m and e['kwarg'] and e['u'] in ordinary and e['kwarg'] in kw:
+                    val = kw[e['kwarg']]
+                    if isinstance(val, dict) and 'exc' in val:
+                        continue
+                    if e['u'] not in done2 or done2[e['u']] > p:
+                        v.append(f'the value of node {e["u"]} was delivered to node {m} before the second event manager '
+                                 f'had seen its successful on_node_complete')
+                        break
+    r = tr['results'][0]
+    if r is not None and r[0] in ('value', 'error'):
+        kinds = [o[0] for o in obs2]
+        if kinds.count('pstart') != 1 or kinds[0] != 'pstart':
+            v.append('the second event manager did not see on_pipeline_start exactly once, first')
+        if kinds.count('pcomplete') != 1 or kinds[-1] != 'pcomplete':
+            v.append('the second event manager did not see on_pipeline_complete exactly once, last')
+    return v[:3]
 
 
 # ------------------------------------------------------------------------------------------- C19
@@ -479,7 +525,7 @@ def c06_oracle(tr):
 
 HYPOTHESES = {'C06': c06_oracle}
 
-EVERYWHERE = ('C04', 'C06', 'C09', 'C12', 'C13', 'C14', 'C19')      # monitors that need no fragment hypothesis
+EVERYWHERE = ('C02', 'C04', 'C06', 'C09', 'C12', 'C13', 'C14', 'C19')      # monitors that need no fragment hypothesis
 
 def c19_strict(tr, sem=None):
     """C19 with the multiplicity rule also inside recurrent pipelines (the recorded finding)"""
